@@ -509,13 +509,16 @@ pub enum Ev {
     Expire(int, Seq<PulledMessage>),
     Delete,
 }
+/// v is what some pull returns from state s (for some hand-out instant and ack deadline)
+pub open spec fn pull_step_ok(v: Seq<PulledMessage>, s: SubView) -> bool {
+    exists|now: int, d: nat| #[trigger] pulled_ok(v, s, v.len() as int, now, d)
+}
 /// one turn of the subscription actor, exactly as the handler contracts describe it
 /// (Post carries the hypothesis that published ids are unique, which is C08/C09's id contract)
 pub open spec fn step(s: SubView, e: Ev, t: SubView) -> bool {
     match e {
         Ev::Post(ms) => if s.deleted { t == s } else { fresh_batch(s, ms) && t == (SubView { backlog: s.backlog + ms, ..s }) },
-        Ev::Pull(v) => if s.deleted { t == s && v.len() == 0 } else {
-            (exists|n: int, now: int, d: nat| pulled_ok(v, s, n, now, d)) && t == pull_view(s, v) },
+        Ev::Pull(v) => if s.deleted { t == s && v.len() == 0 } else { pull_step_ok(v, s) && t == pull_view(s, v) },
         Ev::Ack(ks) => if s.deleted { t == s } else { t == (SubView { out: s.out.remove_keys(ks), ..s }) },
         Ev::Modify(mods) => if s.deleted { t == s } else { t == modify_view(s, mods) },
         Ev::Expire(now, exp) => expire_post(s, now, exp, t),
@@ -553,8 +556,8 @@ pub proof fn lemma_step(s: SubView, e: Ev, t: SubView)
         Ev::Post(ms) => { if !s.deleted { lemma_post(s, ms); } }
         Ev::Pull(v) => {
             if !s.deleted {
-                let (n, now, d) = choose|n: int, now: int, d: nat| pulled_ok(v, s, n, now, d);
-                lemma_pull(s, v, n, now, d);
+                let (now, d) = choose|now: int, d: nat| #[trigger] pulled_ok(v, s, v.len() as int, now, d);
+                lemma_pull(s, v, v.len() as int, now, d);
                 assert forall|m: u64| delivered_in(e, m) implies in_backlog(s, m) by {
                     let i = choose|i: int| 0 <= i < v.len() && mid_of((#[trigger] v[i]).msg()) == m;
                     assert(v[i].msg() == s.backlog[i]);
@@ -715,7 +718,8 @@ pub proof fn lemma_turn_is_step(s: SubView, request: SubscriptionRequest, t: Sub
             if s.deleted { assert(step(s, Ev::Pull(Seq::<PulledMessage>::empty()), t)); } else {
                 let v = choose|v: Seq<PulledMessage>| pull_result_ok(v, s, max_count, d) && t == pull_view(s, v);
                 let now = choose|now: Instant| pulled_deadlines(v, now.v(), d);
-                assert(pulled_ok(v, s, pull_count(s.backlog.len() as int, max_count), now.v(), d));
+                assert(pulled_ok(v, s, v.len() as int, now.v(), d));
+                assert(pull_step_ok(v, s));
                 assert(step(s, Ev::Pull(v), t));
             }
         }
